@@ -8,7 +8,7 @@ from gev import core, evo, workload
 
 PROPERTY = "C16"
 LEVEL = "exploration"
-TECHNIQUE = "runtime monitor: input/output comparison at ElitismStep.apply (identity membership, count, no excluded individual strictly better on independently recomputed direction-aware values) over populations with ties and duplicates; in whole GP runs a recorder tracks the best fitness of every generation whenever the real elitism step received at least one slot"
+TECHNIQUE = "runtime monitor: input/output comparison at ElitismStep.apply (identity membership, count, no excluded individual strictly better on independently recomputed direction-aware values) over populations with ties and duplicates; in whole GP runs a recorder tracks the best fitness of every generation whenever the real elitism step received at least one slot; where the step's weights change during the search the elitism share is computed independently from the weights in force"
 RULE = (
     "step cases = (population of 2..10 individuals with prescribed fitness values incl. ties, direction, single/multi objective, k in 1..n, list or one-shot iterator); "
     "run cases = GP runs (5-40 generations, both directions, random weights) whose step nests a slot-recording ElitismStep; "
